@@ -11,7 +11,7 @@ from lib import env, ex
 from . import c05
 
 TITLE = 'C06: k=0 rejection by abstract evaluation of the guard; structural premises of the (2k-1) bound.'
-RULES = {'R06a': 1, 'R06b': 2, 'R15b': 2, 'R15c': 1, 'R05c': 1, 'R05e': 5}
+RULES = {'R06a': 1, 'R06b': 2, 'R06d': 2, 'R15b': 2, 'R15c': 1, 'R05c': 1, 'R05e': 5}
 
 
 def r06c(rep, prog):
